@@ -80,10 +80,10 @@ def run_path(contract, decisions, registry, first):
     ctx = Ctx(decisions, new_path=True)
     ip = setup_interp(ctx, contract, registry)
     info = ip.repo.func(contract.qualname)
-    contract.bind_loops(info.node)
     E = Env(ip)
     out = {'kind': None}
     try:
+        contract.bind_loops(info.node)
         args = contract.setup(E)
         kwargs = args.pop('__kwargs__', {}) if isinstance(args, dict) else {}
         for name, ty in contract.skolems.items():
@@ -121,6 +121,9 @@ def run_path(contract, decisions, registry, first):
                 if loc is None:
                     raise Unsupported('modifies path %s does not resolve' % p)
                 holder, attr = loc
+                if isinstance(holder, SymObj):
+                    allowed.add((('fieldat', holder.cls.name, attr), holder.ref))
+                    continue
                 allowed.add((id(holder), attr))
                 cur = holder.attrs.get(attr) if isinstance(holder, Obj) else None
                 if isinstance(cur, (PyList, PyDict, PySet, SymSeq, SymMap)):
